@@ -121,6 +121,14 @@ def attribute_known(rep, o, findings):
             if not gen.degenerate_arrangement(c.lhs, c.rhs):
                 continue
             return 'N1'
+        if f['id'] == 'N6':
+            if o.exactq is True or not gen.near_degenerate(c.lhs, c.rhs, c.prec):
+                continue
+            return 'N6'
+        if f['id'] == 'N5':
+            if o.exactq is True or not gen.rounded_parallel(c.lhs, c.rhs, c.prec):
+                continue
+            return 'N5'
         if f['id'] == 'N2' and sig == 'budget:None':
             if o.exactq is True:
                 continue
